@@ -6,6 +6,7 @@ package prog
 
 import (
 	"strings"
+	"unicode/utf8"
 
 	"github.com/goghcrow/yae/parser/ast"
 	"github.com/goghcrow/yae/parser/pos"
@@ -169,13 +170,43 @@ func (t *Term) atomic() bool {
 }
 
 func (t *Term) Render(m Mode) string {
-	var sb strings.Builder
+	var sb rbuf
 	t.render(&sb, m)
-	return sb.String()
+	return sb.sb.String()
+}
+
+// RenderCols renders and reports, for every variable / call / member /
+// subscript term, the 1-based column (in runes) of its own token: the
+// identifier; the operator, `?` or the `(` of a call; the `.`; the `[`.
+func (t *Term) RenderCols(m Mode) (string, map[*Term]int) {
+	sb := rbuf{cols: map[*Term]int{}}
+	t.render(&sb, m)
+	return sb.sb.String(), sb.cols
+}
+
+// rbuf: a string builder that counts runes.
+type rbuf struct {
+	sb   strings.Builder
+	n    int
+	cols map[*Term]int
+}
+
+func (b *rbuf) WriteString(s string) {
+	b.sb.WriteString(s)
+	b.n += utf8.RuneCountInString(s)
+}
+func (b *rbuf) WriteByte(c byte) {
+	b.sb.WriteByte(c)
+	b.n++
+}
+func (b *rbuf) mark(t *Term) {
+	if b.cols != nil {
+		b.cols[t] = b.n + 1
+	}
 }
 
 // operand: a sub-expression in operator / receiver position.
-func (t *Term) operand(sb *strings.Builder, m Mode, receiver bool) {
+func (t *Term) operand(sb *rbuf, m Mode, receiver bool) {
 	form := t.effForm(m)
 	at := t.K != TkCall || form == FCall || form == FMethod
 	if receiver && t.K == TkNum {
@@ -191,7 +222,7 @@ func (t *Term) operand(sb *strings.Builder, m Mode, receiver bool) {
 }
 
 // sub: a sub-expression in a delimited position (argument, element, index).
-func (t *Term) sub(sb *strings.Builder, m Mode) {
+func (t *Term) sub(sb *rbuf, m Mode) {
 	if m&MParens != 0 {
 		sb.WriteByte('(')
 		t.render(sb, m)
@@ -221,9 +252,12 @@ func (t *Term) effForm(m Mode) Form {
 	return f
 }
 
-func (t *Term) render(sb *strings.Builder, m Mode) {
+func (t *Term) render(sb *rbuf, m Mode) {
 	switch t.K {
-	case TkNum, TkStr, TkBool, TkTime, TkVar:
+	case TkNum, TkStr, TkBool, TkTime:
+		sb.WriteString(t.Text)
+	case TkVar:
+		sb.mark(t)
 		sb.WriteString(t.Text)
 	case TkList:
 		sb.WriteByte('[')
@@ -262,16 +296,19 @@ func (t *Term) render(sb *strings.Builder, m Mode) {
 		sb.WriteByte('}')
 	case TkMember:
 		t.Args[0].operand(sb, m, true)
+		sb.mark(t)
 		sb.WriteByte('.')
 		sb.WriteString(t.Text)
 	case TkSub:
 		t.Args[0].operand(sb, m, true)
+		sb.mark(t)
 		sb.WriteByte('[')
 		t.Args[1].sub(sb, m)
 		sb.WriteByte(']')
 	case TkCall:
 		switch t.effForm(m) {
 		case FPrefix:
+			sb.mark(t)
 			sb.WriteString(t.Text)
 			if t.Text == "not" {
 				sb.WriteByte(' ')
@@ -280,12 +317,15 @@ func (t *Term) render(sb *strings.Builder, m Mode) {
 		case FInfix:
 			t.Args[0].operand(sb, m, false)
 			sb.WriteByte(' ')
+			sb.mark(t)
 			sb.WriteString(t.Text)
 			sb.WriteByte(' ')
 			t.Args[1].operand(sb, m, false)
 		case FTernary:
 			t.Args[0].operand(sb, m, false)
-			sb.WriteString(" ? ")
+			sb.WriteByte(' ')
+			sb.mark(t)
+			sb.WriteString("? ")
 			t.Args[1].operand(sb, m, false)
 			sb.WriteString(" : ")
 			t.Args[2].operand(sb, m, false)
@@ -299,6 +339,7 @@ func (t *Term) render(sb *strings.Builder, m Mode) {
 			if m&MParenCallee != 0 {
 				sb.WriteByte(')')
 			}
+			sb.mark(t)
 			sb.WriteByte('(')
 			for i, a := range t.Args[1:] {
 				if i > 0 {
@@ -309,6 +350,7 @@ func (t *Term) render(sb *strings.Builder, m Mode) {
 			sb.WriteByte(')')
 		default:
 			sb.WriteString(t.Text)
+			sb.mark(t)
 			sb.WriteByte('(')
 			for i, a := range t.Args {
 				if i > 0 {
